@@ -84,6 +84,17 @@ def handle : List String → Option String
     let scale ← parseFloatBits? scale
     let xs ← parseFloats? xs
     some (showFs (gumbelMinLseRes loc scale xs))
+  -- closed-form step of `gumbel.pwm` on given moments `m0 m1` (population-moment oracle of C16): `b`, then `a` from `b`
+  | ["est.gupwmform", m0, m1] => do
+    let m0 ← parseFloatBits? m0
+    let m1 ← parseFloatBits? m1
+    let b := Qats.Gen.gu_pwm_b m0 m1
+    some (showFs [Qats.Gen.gu_pwm_a b m0, b])
+  -- location step of `gumbel.msm` / `gumbelmin.msm` given the scale `b` and the mean
+  | ["est.msmloc", b, mean] => do
+    let b ← parseFloatBits? b
+    let mean ← parseFloatBits? mean
+    some (showFs [Qats.Gen.gu_msm_a b mean, Qats.Gen.gm_msm_a b mean])
   | _ => none
 
 end Qats.Driver.Dist
